@@ -2,12 +2,29 @@ package lossy
 
 import (
 	"encoding/binary"
+	"errors"
 	"sync"
 
 	"github.com/deepteams/webp/internal/bitio"
 )
 
 var boolWriterPool sync.Pool
+
+// Limits of the VP8 frame layout (RFC 6386 section 9.1 and 9.5): the size of the
+// first partition is stored in 19 bits of the frame tag, the size of every token
+// partition but the last in 3 bytes.  C libwebp reports
+// VP8_ENC_ERROR_PARTITION0_OVERFLOW / VP8_ENC_ERROR_PARTITION_OVERFLOW.
+const (
+	maxPartition0Size = 1 << 19
+	maxPartitionSize  = 1 << 24
+)
+
+var (
+	// ErrPartition0Overflow: the mode partition does not fit the 19-bit size field.
+	ErrPartition0Overflow = errors.New("vp8: partition #0 is too big to fit 512k")
+	// ErrPartitionOverflow: a token partition does not fit the 24-bit size field.
+	ErrPartitionOverflow = errors.New("vp8: token partition is too big to fit 16M")
+)
 
 func getBoolWriter(expectedSize int) *bitio.BoolWriter {
 	if v := boolWriterPool.Get(); v != nil {
@@ -30,6 +47,17 @@ func (enc *VP8Encoder) emitFrame() ([]byte, error) {
 
 	// Token partitions (1 to 8).
 	tokenParts := enc.emitTokenPartitions()
+
+	// The frame tag and the partition table cannot express larger sizes;
+	// writing them truncated would produce an undecodable stream.
+	if len(part0) >= maxPartition0Size {
+		return nil, ErrPartition0Overflow
+	}
+	for i := 0; i < len(tokenParts)-1; i++ {
+		if len(tokenParts[i]) >= maxPartitionSize {
+			return nil, ErrPartitionOverflow
+		}
+	}
 
 	// Store size breakdown for debugging.
 	tokenSize := 0
